@@ -1,11 +1,397 @@
-//! Tier B (stub, filled in below)
+//! Tier B — the shipped `customasm` binary, built from /repo's working tree,
+//! run in a fresh process in a scratch tree on tmpfs under the LD_PRELOAD
+//! syscall-seam shim (/verif/shim/shim.c). Nothing is stubbed: main.rs,
+//! FileServerReal, println! and the kernel's path resolution are all real;
+//! only the outcomes the plan overrides are simulated.
+
+use crate::corpus::Corpus;
+use crate::disk::{b64, Node};
+use crate::job::Job;
+use crate::prng::run_seed;
 use crate::replay::{Replay, Violation};
 use crate::seams::Channel;
-use crate::worker::WorkerArgs;
+use crate::stats::Stats;
+use crate::worker::{Ctx, WorkerArgs};
 use serde::{Deserialize, Serialize};
-#[derive(Clone, Debug, Serialize, Deserialize)]
-pub struct ProcPlan {}
-pub fn available(_verif: &str) -> bool { false }
-pub fn worker_main(_chan: &Channel, _a: WorkerArgs) {}
-pub fn classify(_r: &Replay, _verif: &str) -> Vec<Violation> { vec![] }
-pub fn minimise(r: &Replay, _tmpdir: &str, _budget: f64) -> Replay { r.clone() }
+use std::collections::BTreeMap;
+use std::os::unix::process::CommandExt;
+use std::os::unix::process::ExitStatusExt;
+use std::process::{Command, Stdio};
+use std::sync::atomic::{AtomicU64, Ordering};
+
+#[derive(Clone, Debug, PartialEq, Eq, Serialize, Deserialize)]
+pub struct ProcFault {
+    pub kind: String,
+    /// absolute path on the simulated disk, or "*"
+    pub path: String,
+}
+
+#[derive(Clone, Debug, PartialEq, Eq, Serialize, Deserialize)]
+pub struct ProcPlan {
+    pub job: Job,
+    pub faults: Vec<ProcFault>,
+    pub keys: String,
+    pub clock: Option<i64>,
+    /// varies the scratch location (part of the environment for C10)
+    pub scratch_tag: String,
+}
+
+#[derive(Clone, Debug, PartialEq, Eq, Serialize, Deserialize)]
+pub struct ShimEvent {
+    pub op: String,
+    pub path: String,
+    /// path on the simulated disk ("/w/proj/x"), or "!<real path>" when the
+    /// access resolved outside the scratch root
+    pub resolved: String,
+    pub ret: i64,
+    pub errno: i32,
+    pub fault: bool,
+}
+
+#[derive(Clone, Debug, PartialEq, Eq, Serialize, Deserialize, Default)]
+pub struct ProcRecord {
+    pub skipped: Option<String>,
+    pub exit: Option<i32>,
+    pub signal: Option<i32>,
+    #[serde(with = "b64")]
+    pub stdout: Vec<u8>,
+    #[serde(with = "b64")]
+    pub stderr: Vec<u8>,
+    /// files that are new or whose content changed: sim path -> content
+    pub changed: BTreeMap<String, String>,
+    pub events: Vec<ShimEvent>,
+    /// (kind, sim path, times fired)
+    pub fired: Vec<(String, String, u64)>,
+}
+
+impl ProcRecord {
+    pub fn comparable(&self) -> String {
+        format!("exit={:?} signal={:?}\nstdout={}\nstderr={}\nchanged={:?}\nevents={:?}", self.exit, self.signal, String::from_utf8_lossy(&self.stdout), String::from_utf8_lossy(&self.stderr), self.changed, self.events.iter().map(|e| format!("{}|{}|{}|{}|{}", e.op, e.path, e.resolved, e.ret, e.errno)).collect::<Vec<_>>())
+    }
+
+    pub fn error_lines(&self) -> usize {
+        crate::job::top_level_errors(&self.stderr)
+    }
+
+    pub fn any_fired(&self, pred: fn(&str) -> bool) -> bool {
+        self.fired.iter().any(|(k, _, n)| *n > 0 && pred(k))
+    }
+}
+
+pub fn available(verif: &str) -> bool {
+    std::path::Path::new(&format!("{}/target/shim.so", verif)).exists() && std::path::Path::new(&format!("{}/target/repo-bin/release/customasm", verif)).exists()
+}
+
+static COUNTER: AtomicU64 = AtomicU64::new(0);
+
+fn collect_files(dir: &std::path::Path, root: &str, out: &mut BTreeMap<String, Vec<u8>>) {
+    let rd = match std::fs::read_dir(dir) {
+        Ok(r) => r,
+        Err(_) => return,
+    };
+    for e in rd.filter_map(|e| e.ok()) {
+        let p = e.path();
+        let ft = match e.file_type() {
+            Ok(t) => t,
+            Err(_) => continue,
+        };
+        if ft.is_dir() {
+            collect_files(&p, root, out);
+        } else if ft.is_file() {
+            let sim = p.to_string_lossy()[root.len()..].to_string();
+            if let Ok(d) = std::fs::read(&p) {
+                out.insert(sim, d);
+            }
+        }
+    }
+}
+
+/// Can this job be put on a real file system under a scratch root?
+pub fn materialisable(job: &Job) -> Result<(), String> {
+    for a in job.argv.iter().skip(1) {
+        if a.starts_with('/') || a.contains("=/") || a.as_bytes().contains(&0) {
+            return Err("absolute path in argv".to_string());
+        }
+    }
+    for (p, _) in job.disk.nodes.iter() {
+        if p.as_bytes().contains(&0) || p.len() > 200 {
+            return Err("unrepresentable path".to_string());
+        }
+    }
+    Ok(())
+}
+
+pub fn run_proc(plan: &ProcPlan, verif: &str) -> ProcRecord {
+    let mut rec = ProcRecord::default();
+    if let Err(why) = materialisable(&plan.job) {
+        rec.skipped = Some(why);
+        return rec;
+    }
+    let n = COUNTER.fetch_add(1, Ordering::SeqCst);
+    let root = format!("/dev/shm/vsim-{}-{}{}", std::process::id(), n, plan.scratch_tag);
+    let log = format!("{}.log", root);
+    let _ = std::fs::remove_dir_all(&root);
+    let _ = std::fs::remove_file(&log);
+    // materialise the disk
+    for (p, node) in plan.job.disk.nodes.iter() {
+        let real = format!("{}{}", root, p);
+        match node {
+            Node::Dir => {
+                let _ = std::fs::create_dir_all(&real);
+            }
+            Node::File(d) => {
+                if let Some(parent) = std::path::Path::new(&real).parent() {
+                    let _ = std::fs::create_dir_all(parent);
+                }
+                if std::fs::write(&real, d).is_err() {
+                    rec.skipped = Some(format!("cannot materialise {}", p));
+                    let _ = std::fs::remove_dir_all(&root);
+                    return rec;
+                }
+            }
+        }
+    }
+    let cwd = format!("{}{}", root, plan.job.disk.cwd);
+    let _ = std::fs::create_dir_all(&cwd);
+    let mut before = BTreeMap::new();
+    collect_files(std::path::Path::new(&root), &root, &mut before);
+
+    let plan_text: Vec<String> = plan.faults.iter().map(|f| if f.path == "*" { format!("{} *", f.kind) } else { format!("{} {}{}", f.kind, root, f.path) }).collect();
+    let mut cmd = Command::new(format!("{}/target/repo-bin/release/customasm", verif));
+    cmd.args(plan.job.argv.iter().skip(1))
+        .current_dir(&cwd)
+        .env_clear()
+        .env("LD_PRELOAD", format!("{}/target/shim.so", verif))
+        .env("SHIM_ROOT", &root)
+        .env("SHIM_LOG", &log)
+        .env("SHIM_KEYS", &plan.keys)
+        .env("SHIM_PLAN", plan_text.join("\n"))
+        .stdin(Stdio::null())
+        .stdout(Stdio::piped())
+        .stderr(Stdio::piped());
+    if let Some(c) = plan.clock {
+        cmd.env("SHIM_CLOCK", c.to_string());
+    }
+    unsafe {
+        cmd.pre_exec(|| {
+            let cpu = libc::rlimit { rlim_cur: 60, rlim_max: 65 };
+            libc::setrlimit(libc::RLIMIT_CPU, &cpu);
+            let mem = libc::rlimit { rlim_cur: 4 << 30, rlim_max: 4 << 30 };
+            libc::setrlimit(libc::RLIMIT_AS, &mem);
+            let core = libc::rlimit { rlim_cur: 0, rlim_max: 0 };
+            libc::setrlimit(libc::RLIMIT_CORE, &core);
+            Ok(())
+        });
+    }
+    match cmd.output() {
+        Err(e) => {
+            rec.skipped = Some(format!("spawn failed: {}", e));
+        }
+        Ok(o) => {
+            rec.exit = o.status.code();
+            rec.signal = o.status.signal();
+            rec.stdout = o.stdout;
+            rec.stderr = o.stderr;
+            let mut after = BTreeMap::new();
+            collect_files(std::path::Path::new(&root), &root, &mut after);
+            for (p, d) in &after {
+                if before.get(p) != Some(d) {
+                    rec.changed.insert(p.clone(), b64::to_text(d));
+                }
+            }
+            for p in before.keys() {
+                if !after.contains_key(p) {
+                    rec.changed.insert(p.clone(), "<deleted>".to_string());
+                }
+            }
+            if let Ok(text) = std::fs::read(&log) {
+                let text = String::from_utf8_lossy(&text);
+                for line in text.lines() {
+                    let f: Vec<&str> = line.split('|').collect();
+                    if f.first() == Some(&"F") && f.len() >= 4 {
+                        let p = if f[2] == "*" { "*".to_string() } else { f[2].strip_prefix(root.as_str()).unwrap_or(f[2]).to_string() };
+                        rec.fired.push((f[1].to_string(), p, f[3].parse().unwrap_or(0)));
+                    } else if f.len() >= 8 {
+                        let resolved = match f[3].strip_prefix(root.as_str()) {
+                            Some("") => "/".to_string(),
+                            Some(r) if r.starts_with('/') => r.to_string(),
+                            _ => format!("!{}", f[3]),
+                        };
+                        if f[1] == "close" || f[1] == "fstat" {
+                            continue;
+                        }
+                        rec.events.push(ShimEvent { op: f[1].to_string(), path: f[2].to_string(), resolved, ret: f[5].parse().unwrap_or(0), errno: f[6].parse().unwrap_or(0), fault: f[7] == "1" });
+                    }
+                }
+            }
+            // stderr may mention the scratch root only through absolute paths,
+            // which jobs do not use; normalise anyway so records compare
+            // across scratch locations
+            rec.stderr = replace_bytes(&rec.stderr, root.as_bytes(), b"<root>");
+            rec.stdout = replace_bytes(&rec.stdout, root.as_bytes(), b"<root>");
+        }
+    }
+    let _ = std::fs::remove_dir_all(&root);
+    let _ = std::fs::remove_file(&log);
+    rec
+}
+
+fn replace_bytes(hay: &[u8], needle: &[u8], with: &[u8]) -> Vec<u8> {
+    if needle.is_empty() {
+        return hay.to_vec();
+    }
+    let mut out = Vec::with_capacity(hay.len());
+    let mut i = 0;
+    while i < hay.len() {
+        if hay[i..].starts_with(needle) {
+            out.extend_from_slice(with);
+            i += needle.len();
+        } else {
+            out.push(hay[i]);
+            i += 1;
+        }
+    }
+    out
+}
+
+impl<'a> Ctx<'a> {
+    pub fn exec_proc(&mut self, plan: &ProcPlan, prop: &str, verif: &str) -> ProcRecord {
+        self.step += 1;
+        if let Some((k, file)) = &self.dump {
+            if *k == self.step {
+                let r = proc_replay(prop, self.seed, self.run, Violation::new("I1-abort", "the harness died while executing this plan".to_string()), plan.clone());
+                std::fs::write(file, serde_json::to_string_pretty(&r).unwrap()).unwrap();
+                unsafe { libc::_exit(0) };
+            }
+        }
+        self.chan.send(&format!("{{\"t\":\"step\",\"run\":{},\"step\":{}}}", self.run, self.step));
+        let rec = run_proc(plan, verif);
+        self.digest = crate::prng::fnv64(format!("{:016x}{}", self.digest, rec.comparable()).as_bytes());
+        rec
+    }
+}
+
+pub fn proc_replay(prop: &str, seed: u64, run: u64, v: Violation, plan: ProcPlan) -> Replay {
+    Replay {
+        property: prop.to_string(),
+        tier: "proc".to_string(),
+        seed,
+        run,
+        violation: v,
+        plan: crate::plan::SimPlan { jobs: vec![], faults: vec![], threads: vec![], schedule: vec![], sched_seed: None, switch_16: 0, clock: vec![], lib_pass: false, all_formats: false },
+        c14: None,
+        proc: Some(plan),
+        minimised: false,
+        note: String::new(),
+    }
+}
+
+pub fn worker_main(chan: &Channel, a: WorkerArgs) {
+    crate::worker::set_limits();
+    let corpus: Corpus = crate::corpus::load(&a.repo);
+    let mut i = a.from;
+    while i < a.to {
+        chan.send(&format!("{{\"t\":\"begin\",\"run\":{}}}", i));
+        let mut ctx = Ctx { chan, prop: a.prop.clone(), seed: a.seed, run: i, run_seed: run_seed(a.seed, &format!("{}-proc", a.prop), i), step: 0, tier: a.tier.clone(), dump: a.dump.clone(), stats: Stats::default(), digest: 0 };
+        let violations: Vec<Replay> = match a.prop.as_str() {
+            "C03" => crate::c03::run_proc(&mut ctx, &corpus, &a.verif),
+            "C10" => crate::c10::run_proc(&mut ctx, &corpus, &a.verif),
+            "C14" => crate::c14::run_proc(&mut ctx, &corpus, &a.verif),
+            _ => panic!("unknown property"),
+        };
+        let line = serde_json::json!({"t": "end", "run": i, "steps": ctx.step, "stats": ctx.stats, "violations": violations, "digest": format!("{:016x}", ctx.digest)});
+        chan.send(&line.to_string());
+        i += a.stride;
+    }
+    chan.send("{\"t\":\"done\"}");
+}
+
+pub fn classify(r: &Replay, verif: &str) -> Vec<Violation> {
+    match r.property.as_str() {
+        "C03" => crate::c03::classify_proc(r, verif),
+        "C10" => crate::c10::classify_proc(r, verif),
+        "C14" => crate::c14::classify_proc(r, verif),
+        _ => vec![],
+    }
+}
+
+/// Minimisation for process-level plans: drop faults, simplify argv through
+/// the spec, drop files, line-level ddmin — same passes as Tier A, on the
+/// job inside the ProcPlan.
+pub fn minimise(r: &Replay, tmpdir: &str, budget_s: f64) -> Replay {
+    use crate::minimize::classify_sub;
+    let target = r.violation.class.clone();
+    let deadline = crate::seams::real_now() + budget_s;
+    let same = |got: &[String]| -> bool {
+        if target.starts_with("I1-abort") {
+            got.iter().any(|g| g.starts_with("I1-abort"))
+        } else {
+            got.iter().any(|g| *g == target)
+        }
+    };
+    let mut best = r.clone();
+    let mut trials = 0u64;
+    let mut ok = |cand: &Replay| -> bool {
+        if crate::seams::real_now() > deadline {
+            return false;
+        }
+        trials += 1;
+        same(&classify_sub(cand, tmpdir, "pm"))
+    };
+    // faults
+    let mut i = best.proc.as_ref().map(|p| p.faults.len()).unwrap_or(0);
+    while i > 0 {
+        i -= 1;
+        let mut cand = best.clone();
+        cand.proc.as_mut().unwrap().faults.remove(i);
+        if ok(&cand) {
+            best = cand;
+        }
+    }
+    // files
+    let paths: Vec<String> = best.proc.as_ref().unwrap().job.disk.nodes.iter().filter(|(_, n)| matches!(n, Node::File(_))).map(|(p, _)| p.clone()).collect();
+    for p in &paths {
+        let mut cand = best.clone();
+        cand.proc.as_mut().unwrap().job.disk.nodes.remove(p);
+        if ok(&cand) {
+            best = cand;
+        }
+    }
+    // lines
+    let paths: Vec<String> = best.proc.as_ref().unwrap().job.disk.nodes.iter().filter(|(_, n)| matches!(n, Node::File(_))).map(|(p, _)| p.clone()).collect();
+    for p in &paths {
+        let data = match best.proc.as_ref().unwrap().job.disk.nodes.get(p) {
+            Some(Node::File(d)) => d.clone(),
+            _ => continue,
+        };
+        let mut lines: Vec<Vec<u8>> = data.split_inclusive(|b| *b == b'\n').map(|l| l.to_vec()).collect();
+        let mut chunk = (lines.len() + 1) / 2;
+        while chunk >= 1 && !lines.is_empty() {
+            let mut i = 0;
+            let mut progressed = false;
+            while i < lines.len() {
+                let end = (i + chunk).min(lines.len());
+                let mut cl = lines.clone();
+                cl.drain(i..end);
+                let mut cand = best.clone();
+                cand.proc.as_mut().unwrap().job.disk.nodes.insert(p.clone(), Node::File(cl.concat()));
+                if ok(&cand) {
+                    lines = cl;
+                    best = cand;
+                    progressed = true;
+                } else {
+                    i = end;
+                }
+            }
+            if chunk == 1 && !progressed {
+                break;
+            }
+            if chunk > 1 {
+                chunk = (chunk + 1) / 2;
+            }
+        }
+    }
+    best.minimised = true;
+    best.note = format!("minimised with {} subprocess trials", trials);
+    best
+}
